@@ -1,2 +1,3 @@
 import DurableModel
 import Proofs.Lock
+import Proofs.Serdes
